@@ -189,9 +189,19 @@ func cmdCheck(args []string) int {
 			c := NewCtx(p, "lemma:"+f.Clause.Label)
 			st := &State{comps: map[string]Term{}}
 			bad := false
+			seenSelf := false
 			for _, g := range p.Specs.Facts {
 				if g == f {
-					break
+					seenSelf = true
+					continue
+				}
+				// usable: facts stated earlier in the same file, and the facts of the shared
+				// library specification (whose own lemmas only use that file's earlier facts)
+				if g.File == f.File && seenSelf {
+					continue
+				}
+				if g.File != f.File && (f.File.PkgPath == "" || g.File.PkgPath != "") {
+					continue
 				}
 				e := &Env{c: c, st: st, bind: map[string]TV{}, file: g.File}
 				if g.File.PkgPath != "" {
@@ -215,6 +225,21 @@ func cmdCheck(args []string) int {
 			}
 			t, err := e.Bool(f.Clause.E)
 			o := &Obligation{Name: "lemma/" + f.Clause.Label, Kind: "lemma", Label: f.Clause.Label, Props: f.Clause.Props, PC: "true", Goal: t, Where: f.Clause.Where, Src: f.Clause.Src}
+			if err == nil && f.Re != nil {
+				// decided on the pattern of the real regular expression, in the solver's regex theory
+				pat, ok := p.reSrc[f.File.PkgPath+"."+f.Re.Var]
+				if _, mutable := mutableGlobalNamed(p, f.File.PkgPath, f.Re.Var); !ok || mutable {
+					err = fmt.Errorf("%s.%s is not a package-level variable initialised once by regexp.MustCompile(<constant>)", f.File.PkgPath, f.Re.Var)
+				} else if q, qerr := reLemmaQuery(pat, f.Re); qerr != nil {
+					err = fmt.Errorf("pattern %q: %v", pat, qerr)
+				} else {
+					o.RawQuery = q
+					o.Re = f.Re
+					o.RePkg = f.File.PkgPath
+					o.Kind = "relemma"
+					o.Src += fmt.Sprintf("  pattern %q", pat)
+				}
+			}
 			if err != nil {
 				o.Status, o.Output, o.Goal = "error", "lemma does not bind: "+err.Error(), "false"
 				bad = true
@@ -328,6 +353,15 @@ func cmdCheck(args []string) int {
 		violations++
 		rp := writeReplay(*verif, *prop, o)
 		fmt.Printf("FAILED obligation %s [%s] at %s\n    clause: %s\n    solver: %s\n", o.Name, o.Status, o.Where, o.Src, firstLine(o.Output))
+		if o.Re != nil && o.Status == "sat" {
+			// the solver's model is a string: replay it against the real regular expression
+			if tp, input, ok := replayReLemma(p, *verif, *prop, o); ok {
+				fmt.Printf("    replayed on the real code: %s.%s matches %q\n", o.RePkg, o.Re.Var, input)
+				fmt.Printf("VIOLATION property=%s replay=%s\n", *prop, tp)
+				samples = append(samples, map[string]any{"obligation": o.Name, "kind": o.Kind, "status": "FAILED:sat (model replayed)", "clause": o.Src})
+				continue
+			}
+		}
 		fmt.Printf("VIOLATION property=%s replay=%s no-failing-input-found\n", *prop, rp)
 		samples = append(samples, map[string]any{"obligation": o.Name, "kind": o.Kind, "status": "FAILED:" + o.Status, "clause": o.Src})
 		if *doExplain && oblCtx[o] != nil {
@@ -512,3 +546,12 @@ func cmdDump(args []string) int {
 }
 
 var _ = ssa.NaiveForm
+
+func mutableGlobalNamed(p *Program, pkgPath, name string) (*ssa.Global, bool) {
+	for g := range p.mutGlob {
+		if g.Pkg.Pkg.Path() == pkgPath && g.Name() == name {
+			return g, true
+		}
+	}
+	return nil, false
+}
